@@ -42,6 +42,35 @@ def address_taken(prog, reach):
     return out
 
 
+def const_table_ranges(prog, src):
+    """element range of every module-level const whose initialiser is a literal byte string / integer array
+    (source dump): `TABLE[i]` then reads a value in [min, max] whatever the index"""
+    from .src import lit_int
+    out = {}
+    for c in prog.consts.values():
+        path = c["path"]
+        mod, _, name = path.rpartition("::")
+        if not re.match(r"^&?('static )?\[(u8|u16|u32|u64|usize|i8|i16|i32|i64|isize)(; \d+)?\]$", c.get("ty", "")):
+            continue
+        fstem = "src/" + mod.replace("::", "/")
+        hit = src.const(name, file=fstem + ".rs") or src.const(name, file=fstem + "/mod.rs")
+        if hit is None:
+            continue
+        e = hit[1]["expr"]
+        while e.get("k") in ("ref", "cast", "paren") or (e.get("k") == "un" and e.get("op") == "*"):
+            e = e["e"]
+        vals = None
+        if e.get("k") == "lit" and e.get("t") == "bytestr":
+            vals = list(e["v"])
+        elif e.get("k") == "array":
+            vals = [lit_int(x) for x in e["elems"]]
+        elif e.get("k") == "repeat":
+            vals = [lit_int(e["e"])]
+        if vals and all(v is not None for v in vals):
+            out[path] = (min(vals), max(vals))
+    return out
+
+
 def run(ctx, rule, entries, *, lossy=False, entry_facts=None, lemmas=None, trusts=None, scope=None, skip=None,
         unsafe=True, lossy_filter=None, kinds=None, init_class="CONSTINIT", floor_bodies=0, desc=None, invariants=None, assume_filter=None):
     """entries: body paths. entry_facts: path -> {arg: {...}}. lemmas / trusts: (path, site_key or kind-prefix) -> (name, reason).
@@ -58,6 +87,10 @@ def run(ctx, rule, entries, *, lossy=False, entry_facts=None, lemmas=None, trust
     entries = [e for e in entries if prog.body(e) is not None]
     dyn, init = cg.reach_split(entries)
     ctx.rule(rule, desc or "every panic/overflow/bounds/unsafe obligation reachable from the entry points is discharged", floor=floor_bodies)
+    if getattr(prog, "const_ranges", None) is None:
+        prog.const_ranges = const_table_ranges(prog, ctx.src) if getattr(ctx, "src", None) is not None else {}
+        if prog.const_ranges:
+            ctx.note("literal const tables with element ranges: %s" % prog.const_ranges)
     eng = Engine(prog, invariants=invariants)
     taken = address_taken(prog, dyn | init)
     outcomes = []
